@@ -13,6 +13,7 @@ import (
 	"verifharness/props/c02"
 	"verifharness/props/c03"
 	"verifharness/props/c04"
+	"verifharness/props/c05"
 	"verifharness/props/c06"
 	"verifharness/props/c07"
 	"verifharness/props/c08"
@@ -27,6 +28,7 @@ import (
 var registry = map[string]func() fw.Prop{
 	"C02": func() fw.Prop { return c02.Prop{} },
 	"C09": func() fw.Prop { return c09.Prop{} },
+	"C05": func() fw.Prop { return c05.Prop{} },
 	"C10": func() fw.Prop { return c02.C10{} },
 	"C01": func() fw.Prop { return c02.C01{} },
 	"C18": func() fw.Prop { return c02.C18{} },
